@@ -98,44 +98,6 @@ func c14ExecRun(t *rapid.T) {
 		return c.(*plush.Context)
 	}
 
-	// ---- reference: every (program, variant) executed alone, under a
-	// single-task simulation (which also counts its steps)
-	type refKey struct{ prog, variant int }
-	ref := map[refKey]execRes{}
-	estSteps := 0
-	for _, ops := range plan {
-		for _, o := range ops {
-			k := refKey{o.prog, o.variant}
-			if _, ok := ref[k]; ok {
-				continue
-			}
-			p := progs[o.prog]
-			rt := newRuntime(p, true)
-			rt.Variant = o.variant
-			var parent *plush.Context
-			if scenario == 2 {
-				parent = mkParent(p)
-			}
-			simrt.SetMapOrder(simrt.Canonical, 0)
-			var r execRes
-			sim := simrt.NewSim(rapidChooser{t}, simrt.Options{Policy: simrt.RoundRobin, MaxSteps: 2000000})
-			sim.Go("ref", func() {
-				tm, err := plush.NewTemplate(p.Main)
-				var out string
-				if err == nil {
-					out, err = safeExec(tm, mkCtx(parent, rt))
-				}
-				res := result(out, err, rt)
-				r = execRes{out: res.out, err: res.err, log: res.log}
-			})
-			if err := sim.Run(); err != nil {
-				t.Fatalf("VERIF-INTERNAL reference run failed: %v", err)
-			}
-			estSteps += sim.Steps
-			ref[k] = r
-		}
-	}
-
 	// ---- shared objects
 	plush.CacheEnabled = cacheOn
 	shared := make([]*plush.Template, nprog)
@@ -162,7 +124,11 @@ func c14ExecRun(t *rapid.T) {
 		}
 	}
 
-	opts := drawSched(t, estSteps*2+ntasks)
+	nexecs := 0
+	for _, ops := range plan {
+		nexecs += len(ops)
+	}
+	opts := drawSched(t, 600*nexecs+ntasks) // static estimate: nothing may depend on earlier runs of this process
 	opts.MaxSteps = 2000000
 	opts.KeepTrace = true
 	simrt.SetMapOrder(mp, mseed)
@@ -277,6 +243,47 @@ func c14ExecRun(t *rapid.T) {
 		violate(t, "C14", "race-free", sig, details(fmt.Sprintf("%d data race report(s) from the Go race detector", races)))
 		return
 	}
+	plush.CacheEnabled = false
+	plush.VerifResetCache()
+	// ---- reference: every (program, variant) executed alone, AFTER the
+	// concurrent run (so that nothing the reference touches — lazily
+	// initialised or memoised process-wide state — is already warm when the
+	// tasks run), under a single-task simulation
+	type refKey struct{ prog, variant int }
+	ref := map[refKey]execRes{}
+	for _, ops := range plan {
+		for _, o := range ops {
+			k := refKey{o.prog, o.variant}
+			if _, ok := ref[k]; ok {
+				continue
+			}
+			p := progs[o.prog]
+			rt := newRuntime(p, true)
+			rt.Variant = o.variant
+			var parent *plush.Context
+			if scenario == 2 {
+				parent = mkParent(p)
+			}
+			simrt.SetMapOrder(simrt.Canonical, 0)
+			var r execRes
+			rsim := simrt.NewSim(rapidChooser{t}, simrt.Options{Policy: simrt.RoundRobin, MaxSteps: 2000000})
+			rsim.Go("ref", func() {
+				tm, err := plush.NewTemplate(p.Main)
+				var out string
+				if err == nil {
+					out, err = safeExec(tm, mkCtx(parent, rt))
+				}
+				res := result(out, err, rt)
+				r = execRes{out: res.out, err: res.err, log: res.log}
+			})
+			if err := rsim.Run(); err != nil {
+				t.Fatalf("VERIF-INTERNAL reference run failed: %v", err)
+				return
+			}
+			ref[k] = r
+		}
+	}
+
 	for i, ops := range plan {
 		for x, o := range ops {
 			got := results[i][x]
